@@ -180,6 +180,10 @@ TrWrite ==
                     THEN {V("C18_WriteOnClosedStreamRejected", <<E.ep, E.sid, E.id>>)} ELSE {})
               \cup (IF E.ok /\ E.ep \in DOMAIN misc.shutAt /\ msg[E.id].callLine > misc.shutAt[E.ep]
                     THEN {V("C08_WriteAfterShutdownRejected", <<E.ep, E.sid, E.id>>)} ELSE {})
+              \* a blocking write that was still waiting (the system was quiescent) when this endpoint's Shutdown was called is a
+              \* write on an association that is no longer established by the time it could be queued: it is rejected
+              \cup (IF E.ok /\ Cfg(E.ep).bw /\ "async" \in DOMAIN E /\ E.ep \in DOMAIN misc.shutAt /\ msg[E.id].callLine < misc.shutAt[E.ep]
+                    THEN {V("C18_BlockedWriteAcrossShutdown", <<E.ep, E.sid, E.id>>)} ELSE {})
               \cup (IF ~E.ok /\ \E t \in DOMAIN ch[E.ep] : ch[E.ep][t].id = E.id
                     THEN {V("C18_FailedWriteOnWire", <<E.ep, E.sid, E.id, E.err>>)} ELSE {})
   /\ step' = (IF "async" \in DOMAIN E THEN step ELSE E)
